@@ -209,7 +209,36 @@ def self_test():
     noll.self_test()
 
 
+def high_order_cases(tier):
+    out = []
+    for n in range(13, 31):
+        for am in sorted({n % 2, (n % 2) + 2 if n >= 2 else n % 2, n - 4 if n >= 4 else n, n - 2, n}):
+            if 0 <= am <= n and (n - am) % 2 == 0:
+                out.append({"n": n, "m": am if (n + am) % 4 else -am, "N": 48 if tier == "quick" else 96})
+    return out
+
+
+def high_order_body(ctx, case):
+    z, _ = Z()
+    n, m, N = case["n"], case["m"], case["N"]
+    ctx.case(case, nontrivial=True, classes=["n_ge_21" if n >= 21 else "n_13_20"])
+    got = z.zernike_nm(n, m, N)
+    want, inside = noll.mode(n, m, N)
+    # the code sums alternating terms of size up to C(n, n/2)^2 in floating point: allow that much rounding, no more
+    import math as _m
+    amp = _m.sqrt(2 * (n + 1)) * sum(_m.comb(n - k, k) * _m.comb(n - 2 * k, (n - abs(m)) // 2 - k) for k in range((n - abs(m)) // 2 + 1))
+    ctx.close(got, want, 1e-13, "zernike_nm(n=%d, m=%d) vs exact-coefficient polynomial" % (n, m), scale=amp, name="high order modes")
+    ctx.require(not np.any(got[~inside]), "high-order mode non-zero outside the pupil")
+    # Noll index of this (n, m) and back
+    for j, nn, mm in noll.noll_rows(n):
+        if nn == n and mm == m:
+            ctx.require(list(z.zernIndex(j)) == [n, m], "zernIndex(%d) != [%d, %d]" % (j, n, m))
+            ctx.close(z.zernike_noll(j, N), got, 0, "zernike_noll(j) == zernike_nm(n, m)", scale=1.0, name="noll vs nm")
+            break
+
+
 LAWS = [
+    plain_law("high_orders", high_order_cases, high_order_body, shards={"quick": 4, "thorough": 8}),
     given_law("modes_xl", mode_cases(320, 20), mode_body, {"quick": 0, "thorough": 40}, shards={"quick": 1, "thorough": 16}),
     Law("noll_index", index_run, replay=index_replay, shards={"quick": 16, "thorough": 16}),
     given_law("modes", mode_cases(), mode_body, {"quick": 250, "thorough": 3750}, shards={"quick": 3, "thorough": 16}),
